@@ -1203,7 +1203,7 @@ func shrinkC29(scAny any) []any {
 
 func init() {
 	Register(&Prop{ID: "C29", Level: "exploration", Race: true,
-		Rule: "one case = 2-4 clients on their own connections issuing 2-5 requests each (<= 14 in total) from CREATE/MKDIR/SYMLINK/REMOVE/RMDIR/RENAME/WRITE/READ/LOOKUP/GETATTR/SETATTR/READDIR on their own names (3 per client) in two shared directories through shared directory handles, plus SETATTR(mode)/GETATTR of the shared directories themselves, payloads unique per write, 0-2 backend calls delayed by 1 us-20 ms (before the call does its work, or - a slow answer - between its work and its return, so that what the caller holds describes the past), 1-4 workers, every lock/channel/select/network/backend interleaving decided by the seeded scheduler (random, PCT, sticky), also built with -race; mode A (60%): caches at minimal TTL/size: the invoke/return history (stamped with scheduler event numbers) is checked with porcupine against a path-based specification of the twelve procedures (status success/failure, kind, size, mode, data, eof, complete listing); mode B (40%; in a fifth of these 1-2 backend calls fail with EIO): caches on with 1 h TTLs plus cross-client LOOKUP/GETATTR of other clients' names: every attribute block, READ payload and listing in a reply must be one the backend object really had at some instant (history recorded atomically at every mutating backend call), and a failed lookup needs an instant of absence; both modes: every request answered, no panic, no deadlock (client blocked at the horizon), and afterwards every unexpired attribute-cache entry, directory-cache listing and the handle table (bijection of ids and paths) agree with the backend; non-trivial = at least 4 recorded operations from at least 2 clients; distinct by event digest; linearizability time-outs (10 s) are counted, never reported",
+		Rule: "one case = 2-4 clients on their own connections issuing 2-5 requests each (<= 14 in total) from CREATE/MKDIR/SYMLINK/REMOVE/RMDIR/RENAME/WRITE/READ/LOOKUP/GETATTR/SETATTR/READDIR on their own names (3 per client) in two shared directories through shared directory handles, plus SETATTR(mode)/GETATTR of the shared directories themselves, payloads unique per write, 0-2 backend calls delayed by 1 us-20 ms (before the call does its work, or - a slow answer - between its work and its return, so that what the caller holds describes the past), 1-4 workers, every lock/channel/select/network/backend interleaving decided by the seeded scheduler (random, PCT, sticky), also built with -race; mode A (60%): caches at minimal TTL/size: the invoke/return history (stamped with scheduler event numbers) is checked with porcupine against a path-based specification of the twelve procedures (status success/failure, kind, size, mode, data, eof, complete listing); mode B (40%; in a fifth of these 1-2 backend calls fail with EIO): caches on with 1 h TTLs plus cross-client LOOKUP/GETATTR of other clients' names: every attribute block, READ payload and listing in a reply must be one the backend object really had at some instant (history recorded atomically at every mutating backend call), and a failed lookup needs an instant of absence; both modes: every request answered, no panic, no deadlock (client blocked at the horizon), and afterwards every unexpired attribute-cache entry, directory-cache listing and the handle table (bijection of ids and paths) agree with the backend; a quarter of the backend-error cases also let a directory read break off half-way (some entries and an error); non-trivial = at least 4 recorded operations from at least 2 clients; distinct by event digest; linearizability time-outs (10 s) are counted, never reported",
 		Gen:  genC29, New: func() any { return &C29Scn{} }, Run: runC29, Shrink: shrinkC29,
 		Real: seqReal, Stubbed: seqStubbed})
 }
